@@ -37,6 +37,69 @@ def run(ctx, chk):
     r2(ctx, chk)
     r3(ctx, chk)
     r4(ctx, chk)
+    r5(ctx, chk)
+
+
+def r5(ctx, chk):
+    """replacement templates of the locale tables refer only to groups their pattern defines: the regex module expands the
+    template when the pattern first MATCHES, so a dangling \\2 raises regex.error for the strings that hit the entry"""
+    import regex
+    from ..core.data import LangData
+    rule = "C02.R5"
+    ld = ctx.memo("langdata", lambda: LangData(ctx.repo))
+    n = 0
+    # the wrappers the code puts around table patterns add no capturing group (else the numbering would shift)
+    from .vocab import Extracted
+    ex = ctx.memo("vocab_extracted", lambda: Extracted(ctx))
+    if regex.compile(ex.simpl_template % "x").groups != 0:
+        raise AnalysisError(rule, "the simplification wrapper %r adds capturing groups" % ex.simpl_template)
+    rt = ctx.ix.func("dateparser.languages.locale:Locale._generate_relative_translations")
+    wr = [n_.value for n_ in iter_own_nodes(rt.node) if isinstance(n_, ast.Constant) and isinstance(n_.value, str) and "{}" in n_.value]
+    t_rt = " ".join(ast.unparse(rt.node).split())
+    if len(wr) != 1 or regex.compile(wr[0].format("x")).groups != 0 or "'|'.join(sorted(" not in t_rt \
+            or ".replace('(\\\\d+', '(?P<n>\\\\d+')" not in t_rt:
+        raise AnalysisError(rule, "_generate_relative_translations: the way the patterns of one key are joined changed: %s" % wr)
+    rel_wrapper = wr[0]
+
+    def refs(template):
+        out = {int(m) for m in regex.findall(r"\\(\d+)", template)}
+        out |= {int(m) for m in regex.findall(r"\\g<(\d+)>", template)}
+        return out
+
+    def one(lang, where, pattern, template, kind):
+        nonlocal n
+        n += 1
+        try:
+            groups = regex.compile(pattern).groups
+        except regex.error as e:
+            chk.ob(rule, "%s %s: pattern %r compiles" % (lang, kind, pattern[:40]), False, "regex.error: %s" % e,
+                   key={"language": lang, "where": where, "pattern": pattern[:60]}, file="dateparser/data/date_translation_data/%s.py" % lang,
+                   function=None, line=None)
+            return
+        bad = sorted(r for r in refs(template) if r > groups)
+        if bad:
+            chk.ob(rule, "%s %s: template %r uses only groups of %r" % (lang, kind, template[:30], pattern[:40]), False,
+                   "the template refers to group %s but the pattern defines %d group(s): regex.error (invalid group reference) is raised for "
+                   "every string the pattern matches" % (bad, groups),
+                   key={"language": lang, "where": where, "pattern": pattern[:60]}, file="dateparser/data/date_translation_data/%s.py" % lang,
+                   function=None, line=None)
+
+    def table(lang, where, info):
+        for simp in info.get("simplifications", []) or []:
+            if isinstance(simp, dict):
+                for pat, tmpl in simp.items():
+                    one(lang, where, str(pat), str(tmpl), "simplification")
+        for tmpl, pats in (info.get("relative-type-regex", {}) or {}).items():
+            # as the code compiles them: all patterns of a key joined longest-first, the number group named `n`
+            joined = "|".join(sorted([str(x) for x in pats or []], key=len, reverse=True)).replace(r"(\d+", r"(?P<n>\d+")
+            one(lang, where, rel_wrapper.format(joined), str(tmpl), "relative-type-regex")
+    for lang in ld.languages():
+        info = ld.info(lang)
+        table(lang, lang, info)
+        for loc, spec in (info.get("locale_specific", {}) or {}).items():
+            table(lang, loc, spec)
+    chk.ob(rule, "every replacement template of the %d locale table entries refers only to groups of its pattern" % n, True)
+    chk.floor(rule, n, 1500, "pattern/template pairs in the locale tables")
 
 
 # ---------------------------------------------------------------------------
@@ -130,6 +193,15 @@ def r2(ctx, chk):
                    "call with settings= may reuse _default_parser and skip validation / ignore the settings",
                key={"function": p.key, "construct": "not settings._default in guard"},
                file=p.file, function=p.qual, line=s.lineno, text=ast.unparse(s.test))
+        # no way out of parse() before that decision: every return is dominated by it
+        gp = CFG(p.node)
+        for r_ in [x for x in iter_own_stmts(p.node.body) if isinstance(x, ast.Return)]:
+            chk.ob(rule, "dateparser.parse: the return at line %d comes after the decision to build (and validate) a parser" % r_.lineno,
+                   gp.dominates(s, r_),
+                   "parse() can return before a parser is built for the caller's settings: an invalid settings dict is accepted "
+                   "for the inputs that take this exit",
+                   key={"function": p.key, "construct": "return dominated by the parser decision"}, file=p.file, function=p.qual, line=r_.lineno,
+                   text=" ".join(ast.unparse(r_).split())[:80])
         # settings= is forwarded
         for n in ast.walk(s):
             if isinstance(n, ast.Call) and ast.unparse(n.func).endswith("DateDataParser"):
